@@ -460,6 +460,19 @@ def run(ck):
                         ck.undecided("C15.R5", fname, fi.site(), "result is not a pair: %r" % (p.value.term,))
                         continue
                     for nm, g, w in zip(("re", "im"), comps, want()):
+                        cases = where_cases(g) if any(isinstance(a_, T.App) and a_.op in ("where", "x:torch.where", "x:numpy.where") for a_ in g.all_atoms()) else None
+                        if cases is not None and len(cases) > 1:
+                            # an element-wise selection between formulas (Smith's division picks the better-scaled one): the value is
+                            # right iff it is right whichever way every selection goes
+                            bad = [(tag, gc) for tag, gc in cases if not (gc == w or T.ratfun_equal(gc, w))]
+                            if not bad:
+                                ck.ok("C15.R5", "%s:%s (every case of its selections)" % (fname, nm), fi.site(), got=g)
+                            elif all(gc.syms() == w.syms() for _t, gc in bad):
+                                ck.violation("C15.R5", "%s:%s" % (fname, nm), fi.site(),
+                                             "%s part is not the expected rational function in the case %s (polynomial identity test, complete for this class)" % (nm, list(bad[0][0])), got=bad[0][1], want=w)
+                            else:
+                                ck.undecided("C15.R5", "%s:%s" % (fname, nm), fi.site(), "a case of the selections is not a rational function of the operands: %s" % (list(bad[0][0]),))
+                            continue
                         if g == w or T.ratfun_equal(g, w):
                             ck.ok("C15.R5", "%s:%s" % (fname, nm), fi.site(), got=g)
                         elif g.syms() == w.syms() and (T.ratfun_equal(g, -w)):
